@@ -194,6 +194,28 @@ func streamAr(g *core.G) {
 		}, "argen", args...)
 		// the harness's own writer must agree with the specification's (cross-check of the generator)
 		g.Emit("ar", core.Hex(string(buildAr(ms))))
+		// the same members with zero-filled numeric columns (as some archivers write them)
+		if len(ms) > 0 && i%3 == 0 {
+			zs := append([]arMember{}, ms...)
+			law := []string{}
+			for j := range zs {
+				fill := func(s string, w int) string {
+					if s == "" {
+						s = "0"
+					}
+					if r.Bool() {
+						return strings.Repeat("0", r.Intn(w-len(s)+1)) + s
+					}
+					return s
+				}
+				zs[j].TS, zs[j].UID, zs[j].GID = fill(zs[j].TS, 12), fill(zs[j].UID, 6), fill(zs[j].GID, 6)
+				zs[j].Size = fill(strconv.Itoa(len(zs[j].Data)), 10)
+				law = append(law, zs[j].TS, zs[j].UID, zs[j].GID, zs[j].Size)
+			}
+			z := core.Hex(string(buildAr(zs)))
+			g.Emit("ar", z)
+			g.Emit("law-arcols", append([]string{z}, law...)...)
+		}
 	}
 }
 
@@ -336,6 +358,10 @@ type sparseRun struct {
 type sparseSource struct {
 	runs []sparseRun
 	size int64
+	// eagerEOF: a read that ends exactly at the end of the source returns the bytes together
+	// with io.EOF (the io.ReaderAt contract allows both; bytes.Reader and os.File do not do it,
+	// range-backed readers do)
+	eagerEOF bool
 }
 
 func parseSegs(s string) *sparseSource {
@@ -381,7 +407,7 @@ func (s *sparseSource) ReadAt(p []byte, off int64) (int, error) {
 		}
 		n += int(k)
 	}
-	if n < len(p) {
+	if n < len(p) || (s.eagerEOF && off+int64(n) == s.size) {
 		return n, io.EOF
 	}
 	return n, nil
@@ -424,8 +450,47 @@ func iterateSparse(src *sparseSource) string {
 	return "[" + strings.Join(xs, ";") + "] end=" + end + " steps=" + strconv.Itoa(len(xs))
 }
 
+func iterateSparseBoth(segs string) string {
+	lazy := iterateSparse(parseSegs(segs))
+	src := parseSegs(segs)
+	src.eagerEOF = true
+	if eager := iterateSparse(src); eager != lazy {
+		return "readerat-eof-style-matters " + lazy + " / " + eager
+	}
+	return lazy
+}
+
 func init() {
-	arImpl["arsparse"] = func(a []string) string { return iterateSparse(parseSegs(a[0])) }
+	arImpl["arsparse"] = func(a []string) string { return iterateSparseBoth(a[0]) }
+	// law (C13): numeric header columns are decimal, whatever their padding: blank = 0,
+	// zero-filled and minimal spellings mean the same number
+	arImpl["law-arcols"] = func(a []string) string {
+		data := []byte(core.MustUnHex(a[0]))
+		ar, err := deb.LoadAr(bytes.NewReader(data))
+		if err != nil {
+			return "FAIL " + err.Error()
+		}
+		for i := 1; i+3 < len(a); i += 4 {
+			e, err := ar.Next()
+			if err != nil {
+				return fmt.Sprintf("FAIL member %d: %v", i/4, err)
+			}
+			want := [4]int64{}
+			for k := 0; k < 4; k++ {
+				want[k], _ = strconv.ParseInt(a[i+k], 10, 64)
+			}
+			if e.Timestamp != want[0] || e.OwnerID != want[1] || e.GroupID != want[2] || e.Size != want[3] {
+				return fmt.Sprintf("FAIL member %d: timestamp/uid/gid/size %d/%d/%d/%d, the columns say %d/%d/%d/%d", i/4, e.Timestamp, e.OwnerID, e.GroupID, e.Size, want[0], want[1], want[2], want[3])
+			}
+			if n, _ := io.Copy(io.Discard, e.Data); n != want[3] {
+				return fmt.Sprintf("FAIL member %d delivers %d bytes of %d", i/4, n, want[3])
+			}
+		}
+		if _, err := ar.Next(); err != io.EOF {
+			return fmt.Sprintf("FAIL no end of archive: %v", err)
+		}
+		return "ok"
+	}
 	arImpl["arsspec"] = arImpl["arsparse"]
 }
 
